@@ -414,7 +414,7 @@ def classify(case, detail):
             set(detail["original"]) < set(detail["rewritten"]) or set(detail["rewritten"]) < set(detail["original"])):
         # clickhouse loses the tables of WHERE subqueries depending on how the compared column is spelled (K-clickhouse-where-subquery@C01)
         return "K-clickhouse-where-subquery@C08"
-    if str(case.get("transformation", "")).startswith("reuse_per_scope") and "other" in (case.get("alias_ambiguities") or []) and detail.get("what") in (
+    if str(case.get("transformation", "")).startswith("reuse_per_scope") and (case.get("alias_ambiguities") or []) and detail.get("what") in (
             "column pairs differ", "S differ"):
         return "K-alias-reuse@C08"
     if case.get("pool") == "used_tables" and detail.get("what") in ("column pairs differ", "S differ"):
